@@ -139,6 +139,9 @@ func verifyFunc(w *World, fn *ssa.Function, fc *FuncContract) (fr *FuncResult) {
 	for k := range e.usedTypeInvs {
 		e.assumed = append(e.assumed, "AST type invariant assumed for objects that exist at entry (parser output): "+k)
 	}
+	for _, u := range e.unproved {
+		e.assumed = append(e.assumed, "UNPROVED obligation (assumed, not counted): "+u)
+	}
 	sort.Strings(e.assumed)
 	fr.Enc = e
 	fr.Obls = e.obls
